@@ -31,6 +31,7 @@ ChainOfBound(b) ==
            [] b.which = "null"  -> <<NNull>>
            [] b.which = "bool"  -> <<NTrue>>
 
+SmallPosB(t) == IF BNCmp(t, BN(1000)) > 0 THEN 1000 ELSE IF BNCmp(t, BN(-1000)) < 0 THEN -1000 ELSE BNToInt(t)
 (* position a bound denotes on an array of n elements; ok = FALSE for an    *)
 (* erroneous bound.  doc is needed for the $-relative bad bounds.           *)
 PosOfBound(b, n, doc, lax) ==
@@ -38,10 +39,10 @@ PosOfBound(b, n, doc, lax) ==
     [] b.k = "last" -> [ok |-> TRUE, pos |-> (n - 1) + b.off]
     [] b.k = "bad"  ->
          IF b.which = "multi" /\ doc.t = "arr" /\ Len(doc.a) = 1 /\ doc.a[1].t = "num"
-         THEN (IF BNFitsInt32(BNTrunc(doc.a[1].n)) THEN [ok |-> TRUE, pos |-> BNToInt(BNTrunc(doc.a[1].n))]
+         THEN (IF BNFitsInt32(BNTrunc(doc.a[1].n)) THEN [ok |-> TRUE, pos |-> SmallPosB(BNTrunc(doc.a[1].n))]
                ELSE [ok |-> FALSE, pos |-> 0])                        \* $[*] of a one-number array
          ELSE IF b.which = "multi" /\ doc.t = "num" /\ lax
-         THEN [ok |-> TRUE, pos |-> BNToInt(BNTrunc(doc.n))]
+         THEN [ok |-> TRUE, pos |-> SmallPosB(BNTrunc(doc.n))]
          ELSE [ok |-> FALSE, pos |-> 0]
 
 SubOf(s) == IF s.range THEN Sub2(ChainOfBound(s.f), ChainOfBound(s.t)) ELSE Sub1(ChainOfBound(s.f))
@@ -72,7 +73,16 @@ Nested == { <<NRoot, NIdx(<<Sub1(<<NRoot, NIdx(<<Sub1(Lit(0))>>)>>)>>)>>,       
 FromDoc == { <<NRoot, NIdx(<<Sub1(<<NRoot, NIdx(<<Sub1(Lit(0))>>)>>)>>)>>,                      \* $[$[0]]
              <<NRoot, NIdx(<<Sub2(<<NRoot, NIdx(<<Sub1(Lit(0))>>)>>, <<NRoot, NIdx(<<Sub1(Lit(1))>>)>>)>>)>>,   \* $[$[0] to $[1]]
              <<NRoot, NIdx(<<Sub1(<<NRoot, NIdx(<<Sub1(<<NLast>>)>>)>>), Sub1(Lit(0))>>)>> }    \* $[$[last], 0]
-NestedSeq == SetToSeq(Nested \cup FromDoc)
+(* a step after the subscript (asked for existence too: a hit on an earlier subscript and a miss on the   *)
+(* last one), and bounds whose own evaluation yields one item and then fails                              *)
+Gt1 == NFilter(NBin("gt", <<NCur>>, Lit(1)))
+More == { <<NRoot, NIdx(<<Sub1(Lit(0)), Sub1(Lit(1))>>), Gt1>>, <<NRoot, NIdx(<<Sub1(Lit(1)), Sub1(Lit(0))>>), Gt1>>,
+          <<NRoot, NIdx(<<Sub2(Lit(0), Lit(1))>>), Gt1>>, <<NRoot, NIdx(<<Sub1(Lit(0)), Sub1(<<NLast>>)>>), Gt1>>,
+          <<NRoot, NIdx(<<Sub1(Lit(0)), Sub1(Lit(1))>>), NKey(KA)>>, <<NRoot, NIdx(<<Sub1(Lit(0)), Sub1(Lit(2))>>), NMethod("floor")>>,
+          <<NRoot, NIdx(<<Sub1(<<NRoot, NIdx(<<Sub1(Lit(0)), Sub1(Lit(5))>>)>>)>>)>>,                       \* $[$[0, 5]]
+          <<NRoot, NIdx(<<Sub1(<<NRoot, NAnyArr, NMethod("floor")>>)>>)>>,                                \* $[$[*].floor()]
+          <<NRoot, NIdx(<<Sub2(Lit(0), <<NRoot, NIdx(<<Sub1(Lit(1)), Sub1(Lit(7))>>)>>)>>)>> }            \* $[0 to $[1, 7]]
+NestedSeq == SetToSeq(Nested \cup FromDoc \cup More)
 
 PathOfAbs(sl) == <<NRoot, NIdx([j \in 1..Len(sl) |-> SubOf(sl[j])])>>
 PathSeq == [i \in 1..Len(AbsSeq) |-> PathOfAbs(AbsSeq[i])] \o NestedSeq
@@ -81,9 +91,12 @@ Elems == {VNull, VFlt(1), VStr(KX), VArr(<<VFlt(2)>>), VObj(<<[k |-> KA, v |-> V
 NonArrays == {VFlt(1), VNull, VObj(<<[k |-> KA, v |-> VFlt(1)]>>)}
 Nums == {VHalf(h) : h \in {-3, -1, 1, 3, 5}} \cup {VFlt(i) : i \in {-1, 0, 1, 2, 3}}
         \cup {VNum("f", BNMul2k(BNOne, 31)), VNum("f", BNNeg(BNAdd(BNMul2k(BNOne, 31), BNOne)))}
+        \* fractions in the last unit inside int32: they truncate to a valid position
+        \cup {VNum("f", BNSub(BNMul2k(BNOne, 31), BNMk(FALSE, <<1>>, -1))), VNum("f", BNNeg(BNAdd(BNMul2k(BNOne, 31), BNMk(FALSE, <<1>>, -1))))}
 NumDocs == {VArr(<<a, b, VStr(KX)>>) : a \in Nums, b \in Nums} \cup {VArr(<<a>>) : a \in Nums}
 DocSeq == SetToSeq(ArraysUpTo(Elems, MaxLen) \cup NonArrays \cup NumDocs
-                   \cup {VArr(<<VFlt(0), VFlt(1), VArr(<<VFlt(0), VFlt(1)>>)>>), VArr(<<VFlt(5), VFlt(6), VArr(<<VFlt(0), VFlt(1)>>)>>)})
+                   \cup {VArr(<<VFlt(0), VFlt(1), VArr(<<VFlt(0), VFlt(1)>>)>>), VArr(<<VFlt(5), VFlt(6), VArr(<<VFlt(0), VFlt(1)>>)>>),
+                         VArr(<<VFlt(1), VStr(KX)>>), VArr(<<VFlt(0), VStr(KX), VFlt(5)>>), VArr(<<VFlt(5), VFlt(1)>>), VArr(<<VFlt(1), VFlt(5)>>)})
 
 ASSUME ndJsonSerialize("paths.ndjson", [i \in 1..Len(PathSeq) |-> [pred |-> FALSE, chain |-> PathSeq[i]]])
 ASSUME ndJsonSerialize("docs.ndjson", [i \in 1..Len(DocSeq) |-> [doc |-> DocSeq[i]]])
@@ -111,7 +124,9 @@ CaseAt(p, d, lx) ==
    silent |-> FALSE, useTZ |-> FALSE, zone |-> "UTC"]
 
 (* $[$[0]] on an array of numbers: the element at trunc(a[0]), by the rules *)
-NumPos(v) == IF v.t = "num" /\ BNFitsInt32(BNTrunc(v.n)) THEN [ok |-> TRUE, pos |-> BNToInt(BNTrunc(v.n))] ELSE [ok |-> FALSE, pos |-> 0]
+(* positions far outside any array of the universe are clamped (BNToInt is for small values) *)
+SmallPos(t) == IF BNCmp(t, BN(1000)) > 0 THEN 1000 ELSE IF BNCmp(t, BN(-1000)) < 0 THEN -1000 ELSE BNToInt(t)
+NumPos(v) == IF v.t = "num" /\ BNFitsInt32(BNTrunc(v.n)) THEN [ok |-> TRUE, pos |-> SmallPos(BNTrunc(v.n))] ELSE [ok |-> FALSE, pos |-> 0]
 FromDocLaw(d, lx) ==
   LET doc == DocSeq[d]
       c   == [path |-> [lax |-> lx, pred |-> FALSE, chain |-> <<NRoot, NIdx(<<Sub1(<<NRoot, NIdx(<<Sub1(Lit(0))>>)>>)>>)>>],
